@@ -12,7 +12,11 @@
   equity entry after every block.
 
   State: `assets code` = the Asset record stored in the issuer's asset-code trie (codes are tx hashes,
-  hence globally unique: a second create with the same hash is the explicit outcome `hashCollision`),
+  hence globally unique; the per-account asset tries are collapsed into one map, which is exact as long as
+  no two create txs share a hash.  CreateAssetTx has NO existence check (asset_tx.go:66 SetAssetCode): a
+  create whose hash already names an asset OVERWRITES the record, supply reset to 0 — modelled as coded;
+  the theorems that need it take `s.assets hash = none` as a hypothesis.  Reachability: it needs two
+  included create txs with the same tx hash, i.e. the same signed tx twice, which the tx guard refuses),
   `equity holder id` = the AssetEquity (asset code, amount) in the holder's equity trie,
   `idMeta holder id` = "GetAssetIdState(id) succeeds" (only IssueAssetTx writes it, and an EMPTY
   metaData string deletes it).
@@ -76,7 +80,7 @@ inductive Err where
   | parse | assetNotExist | idNotExist | equityNotExist | issueAmount | metaData | replenishAmount
   | frozen | notReplenishable | notDivisible | codeMismatch | noInfo | category | kind | tokenDivisible
   | nftDivisible | decimal | assetEquity | frozenTransfer | insufficient | rlpNegative | negativeAmount
-  | hashCollision
+  | tooLong
   deriving Repr, DecidableEq
 
 def Err.name : Err → String
@@ -87,18 +91,21 @@ def Err.name : Err → String
   | .category => "category" | .kind => "kind" | .tokenDivisible => "tokenDivisible"
   | .nftDivisible => "nftDivisible" | .decimal => "decimal" | .assetEquity => "assetEquity"
   | .frozenTransfer => "frozenTransfer" | .insufficient => "insufficient" | .rlpNegative => "rlpNegative"
-  | .negativeAmount => "negativeAmount" | .hashCollision => "hashCollision"
+  | .negativeAmount => "negativeAmount" | .tooLong => "tooLong"
 
-/-- the freeze part of a ModifyAssetTx: empty update / only other keys / freeze := (value == "true") -/
+/-- a ModifyAssetTx's update: empty / only other keys / freeze := (value == "true") / an update (whatever
+    it does to the freeze key) whose values are so long that the marshalled asset exceeds
+    MaxMarshalAssetLength: ModifyAssetProfileTx applies it, measures, reverts and fails -/
 inductive Fz where
-  | empty | otherKey | set (b : Bool)
+  | empty | otherKey | set (b : Bool) | tooLong
   deriving Repr, DecidableEq
 
 /-- one asset transaction. `amt = none`: the amount text is rejected by the parser (or missing / not a string).
+    `big` (create): the marshalled asset exceeds MaxMarshalAssetLength (ErrMarshalAssetLength).
     `hash` is the tx's own hash (asset code of a create, asset id of a category-2/3 issue).
     `ck`: receiver has no code (0) / code that runs to the end (1) / code whose execution fails (2). -/
 inductive Op where
-  | create (sender hash cat : Nat) (div repl : Bool) (decimal : Nat) (frozen : Bool)
+  | create (sender hash cat : Nat) (div repl : Bool) (decimal : Nat) (frozen : Bool) (big : Bool)
   | issue (sender recv hash code metaLen : Nat) (amt : Option Int)
   | replenish (sender recv code id : Nat) (amt : Option Int)
   | modify (sender code : Nat) (fz : Fz)
@@ -111,12 +118,19 @@ def lookup (s : St) (owner code : Nat) : Option AssetRec :=
   | some r => if r.issuer = owner then some r else none
   | none => none
 
-/-- SetEquityState: rlp.EncodeToBytes refuses a negative *big.Int -/
+/-- SetEquityState (account.go:571): `val, err := rlp.EncodeToBytes(equity); if err != nil { return err }` and
+    common/rlp/encode.go:433 `return fmt.Errorf("rlp: cannot encode negative *big.Int")` for Equity.Sign() < 0.
+    The `e.2 < 0` test below IS that encoder branch (nothing else in the Go code keeps an equity from going
+    negative); the caller reverts to its snapshot and the tx is discarded.  The harness observes it on the real
+    engine as outcome `rlpNegative`.  `LemoProofs.C12.rlp_guard_fires_only_on_burn` shows that on the live model
+    this branch is dead for equity entries: their non-negativity follows from the operations themselves. -/
 def putEquity (s : St) (a id : Nat) (e : Nat × Int) : Except Err St :=
   if e.2 < 0 then .error .rlpNegative
   else .ok { s with equity := fun x y => if x = a ∧ y = id then some e else s.equity x y }
 
-/-- SetAssetCodeTotalSupply -/
+/-- SetAssetCodeTotalSupply → SetAssetCode (account.go:479-512): the whole Asset record is RLP-encoded, the same
+    encoder branch refuses a negative TotalSupply.  This one is NOT dead: a burn larger than the recorded
+    supply (possible once holdings exceed the supply, foreign-asset-id finding) is refused here and only here. -/
 def putSupply (s : St) (code : Nat) (v : Int) : Except Err St :=
   match s.assets code with
   | none => .error .assetNotExist
@@ -131,12 +145,12 @@ def setMeta (s : St) (a id : Nat) (b : Bool) : St :=
 def verifyCode (stable : St) (sender code : Nat) : Bool :=
   code == 0 || (lookup stable sender code).isSome
 
-def create (s : St) (sender hash cat : Nat) (div repl : Bool) (decimal : Nat) (frozen : Bool) : Except Err St :=
+def create (s : St) (sender hash cat : Nat) (div repl : Bool) (decimal : Nat) (frozen big : Bool) : Except Err St :=
   if decimal > 18 then .error .decimal else
   if cat = 1 ∧ div = false then .error .tokenDivisible else
   if cat = 2 ∧ div = true then .error .nftDivisible else
   if cat ≠ 1 ∧ cat ≠ 2 ∧ cat ≠ 3 then .error .kind else
-  if (s.assets hash).isSome then .error .hashCollision else
+  if big then .error .tooLong else
   let r : AssetRec := { issuer := sender, category := cat, divisible := div, replenishable := repl, frozen := frozen, supply := 0 }
   .ok { s with assets := fun x => if x = hash then some r else s.assets x }
 
@@ -198,6 +212,7 @@ def modify (stable s : St) (sender code : Nat) (fz : Fz) : Except Err St :=
   | some r =>
     match fz with
     | .set b => .ok { s with assets := fun x => if x = code then some { r with frozen := b } else s.assets x }
+    | .tooLong => .error .tooLong
     | _ => .ok s
 
 /-- what the receiver's entry becomes: a fresh copy of the sender's entry with the amount, or its own entry plus the amount -/
@@ -251,7 +266,7 @@ def transferAsIs := transfer false
 def transferFixed := transfer true
 
 def apply (fixed : Bool) (stable s : St) : Op → Except Err St
-  | .create sd h cat dv rp dc fz => create s sd h cat dv rp dc fz
+  | .create sd h cat dv rp dc fz big => create s sd h cat dv rp dc fz big
   | .issue sd rc h c m a => issue stable s sd rc h c m a
   | .replenish sd rc c i a => replenish stable s sd rc c i a
   | .modify sd c fz => modify stable s sd c fz
@@ -266,6 +281,21 @@ def step (fixed : Bool) (stable s : St) (op : Op) : St :=
 def runOps (fixed : Bool) (stable : St) : St → List Op → St
   | s, [] => s
   | s, op :: ops => runOps fixed stable (step fixed stable s op) ops
+
+/-- a box transaction: its sub-transactions run in order through the same applyTx; the first failure fails the
+    box, and the miner discards the whole box (RunBoxTxs + ApplyTxs' RevertToSnapshot) -/
+def applyBox (fixed : Bool) (stable : St) : St → List Op → Except Err St
+  | s, [] => .ok s
+  | s, op :: ops =>
+    match apply fixed stable s op with
+    | .ok s' => applyBox fixed stable s' ops
+    | .error e => .error e
+
+/-- a chain of blocks, each executed against an ARBITRARY stable state given with it (VerifyAssetTx reads the
+    node's latest stable block, which may lag behind the parent) -/
+def runChain (fixed : Bool) : St → List (St × List Op) → St
+  | s, [] => s
+  | s, (stable, b) :: bs => runChain fixed (runOps fixed stable s b) bs
 
 /-- a chain of blocks; each block is stable before the next one is built (the harness confirms every block) -/
 def runBlocks (fixed : Bool) : St → List (List Op) → St
